@@ -33,4 +33,7 @@ MUTANTS = [
     m("c20-twin-threshold", None, "    if val > -LOG_2:\n", "    if val > -0.6931471805599453:\n", twin=True),
     m("c20-twin-lse-sym", None, "            return LogRepFloat(log_val=log_sum_exp(self.log_val, other.log_val))", "            return LogRepFloat(log_val=log_sum_exp(other.log_val, self.log_val))", twin=True),
     m("c20-twin-threshold-1", None, "    if val > -LOG_2:\n", "    if val > -1.0:\n", twin=True),
+    {"id": "c20-val-cached-property", "prop": "C20", "rule": "R3", "key": "memoised-on-mutable", "edits": [{"file": U, "old": "from math import exp,", "new": "from functools import cached_property\nfrom math import exp,"}, {"file": U, "old": "    @property\n    def val(self) -> float:\n        try:\n            return exp(self.log_val)", "new": "    @cached_property\n    def val(self) -> float:\n        try:\n            return exp(self.log_val)"}]},
+    m("c20-val-lazy-slot", "R3", "    def val(self) -> float:\n        try:\n            return exp(self.log_val)", "    def val(self) -> float:\n        if getattr(self, \"_val\", None) is not None:\n            return self._val\n        try:\n            self._val = exp(self.log_val)\n            return self._val", key="memoised-on-mutable"),
+    m("c20-twin-val-local", None, "    def val(self) -> float:\n        try:\n            return exp(self.log_val)", "    def val(self) -> float:\n        log_val = self.log_val\n        try:\n            return exp(log_val)", twin=True),
 ]
